@@ -8,7 +8,17 @@ import os
 from pyvc.api import *
 
 SPEC_IMPORTS = ['contracts.common']
-SPEC_FUNCTIONS = []
+SPEC_FUNCTIONS = ['has_slot', 'is_data_descriptor']
+
+
+def has_slot(x, name):
+    """static: the class of x (or a base) defines `name` - what _safe_hasattr computes"""
+    return _check_class(type(x), name) is not _sentinel
+
+
+def is_data_descriptor(x):
+    """Python data model: a descriptor that defines __set__ OR __delete__ takes precedence over the instance dict"""
+    return has_slot(x, '__get__') and (has_slot(x, '__set__') or has_slot(x, '__delete__'))
 
 _L = Obj('Live')
 _DOA = Obj('DOA')
@@ -112,11 +122,86 @@ FAMILIES = [
            }),
 ]
 
-CONTRACTS = [_bool, _has_iter, _getitem, _iter_list]
+def _region_static(func):
+    """getattr_static up to (excluding) the metaclass fallback `if obj is klass:`"""
+    out = []
+    for s_ in func.body:
+        if isinstance(s_, ast.If) and ast.unparse(s_.test) == 'obj is klass':
+            return out
+        out.append(s_)
+    return None
+
+
+def _replay_static(inp):
+    """real objects: a descriptor of the given shape on the class, shadowed by an instance __dict__ entry"""
+    from pyvc.replay import run_real
+    from jedi.inference.compiled.getattr_static import getattr_static
+    calls = []
+    ns = {'__get__': lambda self, o, t=None: calls.append('get') or 1}
+    if 'set' in inp['shape']:
+        ns['__set__'] = lambda self, o, v: None
+    if 'delete' in inp['shape']:
+        ns['__delete__'] = lambda self, o: None
+    D = type('D', (), ns)
+    d = D()
+    C = type('C', (), {'attr': d})
+    obj = C()
+    obj.__dict__['attr'] = 'shadow'
+    out = run_real(lambda: getattr_static(obj, 'attr'))
+    data = 'set' in inp['shape'] or 'delete' in inp['shape']
+    # what normal attribute access does (the oracle): a data descriptor wins over the instance dict
+    calls.clear()
+    real = getattr(obj, 'attr')
+    uses_get = bool(calls)
+    return {'uses_get': uses_get, 'data': data}, out
+
+
+_static = Contract(
+    id='C13.getattr_static', prop='C13',
+    clause='the static lookup reports is_get_descriptor=True exactly when normal attribute access would go through '
+           'a descriptor __get__: a class attribute with __get__ that is a data descriptor (__set__ or __delete__) '
+           'wins over the instance dict; otherwise the instance dict entry (flag False); otherwise the class '
+           'attribute with flag = has __get__',
+    file='jedi/inference/compiled/getattr_static.py', qualname='getattr_static', region=_region_static,
+    params={'obj': _L, 'attr': STR, 'default': _L},
+    free={'instance_result': _L, 'klass_result': _L},
+    families=['Live'], ret=Opt(Tup(_L, BOOL)),
+    inline=['_safe_hasattr', '_safe_is_data_descriptor'],
+    ensures=[
+        'NEW_klass_result == _check_class(obj if _is_type(obj) else type(obj), attr)',
+        'implies(_is_type(obj), NEW_instance_result is _sentinel)',
+        'implies(NEW_instance_result is not _sentinel and NEW_klass_result is not _sentinel '
+        'and is_data_descriptor(NEW_klass_result), result == (NEW_klass_result, True))',
+        'implies(NEW_instance_result is not _sentinel and not (NEW_klass_result is not _sentinel '
+        'and is_data_descriptor(NEW_klass_result)), result == (NEW_instance_result, False))',
+        'implies(NEW_instance_result is _sentinel and NEW_klass_result is not _sentinel, '
+        'result == (NEW_klass_result, has_slot(NEW_klass_result, "__get__")))',
+        'implies(NEW_instance_result is _sentinel and NEW_klass_result is _sentinel, result is None)',
+    ],
+    witness={}, replay=_replay_static, concrete_only=True,
+    witness_library=[{'shape': 'get+set'}, {'shape': 'get+delete'}, {'shape': 'get+set+delete'}, {'shape': 'get'}],
+    concrete_ensures=['result[1] == uses_get', 'implies(not data, result[0] == "shadow")'],
+    notes='block contract on the statements before the metaclass fallback; _check_class/_check_instance/'
+          '_shadowed_dict/_is_type are abstract pure lookups (they use type.__dict__ / object.__getattribute__ only)',
+)
+
+CONTRACTS = [_bool, _has_iter, _getitem, _iter_list, _static]
 
 
 def register(reg):
-    from pyvc.values import MOpaqueSet, MCls
+    from pyvc.values import MOpaqueSet, MCls, MNS, SV
+    import z3 as _z3
+    from pyvc.types import Ref as _Ref
+    for nm, params, ret in (('_is_type', [('obj', _L)], BOOL), ('_shadowed_dict', [('klass', _L)], _L),
+                            ('_check_instance', [('obj', _L), ('attr', STR)], _L),
+                            ('_check_class', [('klass', _L), ('attr', STR)], _L)):
+        reg.names[nm] = FnSpec(nm, params=params, ret=ret, pure=True, assumed=True,
+                               note='static lookup helper of getattr_static.py (type.__dict__ / '
+                                    'object.__getattribute__ only; runs no user code)')
+    reg.names['_sentinel'] = SV(_L, _z3.Const('getattr_static._sentinel', _Ref))
+    reg.names['types'] = MNS('types', {
+        'MemberDescriptorType': SV(_L, _z3.Const('types.MemberDescriptorType', _Ref)),
+        'GetSetDescriptorType': SV(_L, _z3.Const('types.GetSetDescriptorType', _Ref))})
     reg.names['ALLOWED_GETITEM_TYPES'] = MOpaqueSet('ALLOWED_GETITEM_TYPES')
     reg.names['ALLOWED_BOOL_TYPES'] = MOpaqueSet('ALLOWED_BOOL_TYPES')
     reg.names['getattr_static'] = FnSpec('getattr_static', params=[('obj', None), ('name', STR)], ret=Tup(_L, BOOL),
